@@ -650,6 +650,12 @@ def i7(prog: Program, chk: Check) -> None:
                 f"non-adjacent sites is wrong although every single-site state is right", pl)
 
 
+def i8(prog: Program, chk: Check) -> None:
+    chk.rule("I8", "a chain state saved with get_augmented_mps() and handed back continues where it stopped: AugmentedMPS stores the gammas and lambdas it is given through value-preserving conversions only (the back end keeps the weight of the state in its unnormalised lambdas - normalising them to the pure-state convention sum(lambda^2) = 1 rescales every reduced density matrix of the continued run)", floor=2)
+    from rules.valueflow import containers_keep_values
+    containers_keep_values(prog, chk, "I8", which={'AugmentedMPS'})
+
+
 def run(prog: Program, chk: Check) -> None:
     chk.explanation = (
         "Decides two clauses of C10: 'all execution modes are usable' as far as name resolution "
@@ -671,3 +677,4 @@ def run(prog: Program, chk: Check) -> None:
     chk.call(i2_i3, prog, chk)
     chk.call(i5_i6, prog, chk)
     chk.call(i7, prog, chk)
+    chk.call(i8, prog, chk)
